@@ -327,9 +327,8 @@ func genSys(r *vlib.R, tier string, emit func(string)) {
 		// on its own (the trigger is sensitive to other load): a silent zone's servers fail for two cohorts,
 		// the resolver re-checks the zone's name-server hosts at the fifth all-servers-failed lookup — on the
 		// failing client's own context, so nobody waits an extra timeout
-		emit("sys new n 0")
-		emit("sys wave fifth:sil:8:k")
-		emit("sys wave fifthb:sil:8:k")
+		emit("sys new c 0")
+		emit("sys fifth 5")
 		emit("sys drain")
 		if tier == "thorough" {
 			emit(fmt.Sprintf("sys new n %d", 150+r.Intn(200))) // dedup wait shorter than a failing resolution
@@ -414,6 +413,18 @@ func genExtra(r *vlib.R, tier string, emit func(string)) {
 	emit(fmt.Sprintf("ing pipeline %d %d", 200+r.Intn(300), 2+r.Intn(3)))
 	emit("ing pipeline 0 3")
 	emit("ing end")
+	// the accept loop survives every Accept error but "listener closed"
+	emit("accept new")
+	akinds := []string{"timeout", "emfile", "econnaborted", "ehostunreach", "enetdown", "eproto", "enobufs", "enomem", "plain", "nettemp", "netperm"}
+	for i := 0; i < 6; i++ {
+		n := 1 + r.Intn(3)
+		var ks []string
+		for j := 0; j < n; j++ {
+			ks = append(ks, akinds[(i*3+j+r.Intn(2))%len(akinds)])
+		}
+		emit("accept " + strings.Join(ks, ","))
+	}
+	emit("accept -")
 	emit("tcpclass new")
 	for _, l := range []int{12, 512, 2047, 2048, 2049, 4096, 16384, 65535, 2040 + r.Intn(16)} {
 		emit(fmt.Sprintf("tcpclass %d", l))
